@@ -197,6 +197,21 @@ def run(ctx):
     cnt = prog.body(DW + '::count')
     ctx.ob('R18.7', 'count|size of the keyed container', bool(cnt.call_blocks(lambda c: c.endswith('::len'))), 'count() is the number of keys', cnt.loc())
 
+    # ---- R18.8 the allocation lifecycle is announced durably
+    ctx.rule('R18.8', 'AllocationQueued / AllocationStarted / AllocationFinished are sent with ForwardMode::StreamAndPersist (the announced lifecycle is also what the journal / a later history reader sees; a stream-only end leaves an allocation that never ends in the persisted history)')
+    FM8 = HQ + 'event::streamer::ForwardMode'
+    EP8 = HQ + 'event::payload::EventPayload'
+    n8 = 0
+    for p_, b_ in prog.bodies.items():
+        if not p_.startswith(STREAMER + 'on_allocation_') or b_.kind != 'method':
+            continue
+        pv = set(s_['rv'][1][2] for o_, bb_, bi_, s_ in construct_sites(prog, EP8) if bb_.path == p_)
+        fm = set(s_['rv'][1][2] for o_, bb_, bi_, s_ in construct_sites(prog, FM8) if bb_.path == p_)
+        for v_ in sorted(pv & {'AllocationQueued', 'AllocationStarted', 'AllocationFinished'}):
+            n8 += 1
+            ctx.ob('R18.8', f'{v_}|persisted', fm == {'StreamAndPersist'}, f'{v_} is emitted with StreamAndPersist (observed {sorted(fm)})', b_.loc())
+    ctx.floor('R18.8', n8, 3, 'allocation lifecycle emitters')
+
 
 def _is_af(b, s):
     l = s['p'][0]
